@@ -6,6 +6,7 @@ import (
 	"encoding/binary"
 	"fmt"
 	"github.com/bartossh/Computantis/src/accountant"
+	"github.com/bartossh/Computantis/src/serializer"
 	"github.com/bartossh/Computantis/src/transformers"
 	"math/rand"
 	"sort"
@@ -107,6 +108,19 @@ func c12Forge(net *vnet.Net, rng *rand.Rand, class string, item ledger.H, adv in
 			d, s := advA.W.Sign(msg)
 			out = append(out, &protobufcompiled.Gossiper{Address: va, Digest: d[:], Signature: s})
 		}
+	}
+	if class == "garbage" {
+		// entries whose address is not an address at all: strings that decode to 0..8 bytes (shorter than, as long as,
+		// and just longer than the checksum), the empty string, characters outside the alphabet
+		for k := 0; k <= 8; k++ {
+			raw := make([]byte, k)
+			rng.Read(raw)
+			d := make([]byte, 32)
+			s := make([]byte, 64)
+			rng.Read(d)
+			out = append(out, &protobufcompiled.Gossiper{Address: string(serializer.Base58Encode(raw)), Digest: d, Signature: s})
+		}
+		out = append(out, &protobufcompiled.Gossiper{Address: "0OIl not base58", Digest: make([]byte, 32), Signature: make([]byte, 64)})
 	}
 	if strings.HasPrefix(class, "sybil-entries") {
 		// genuinely signed entries of wallets that are nobody's peer (throw-away keys of the adversary): they verify,
